@@ -275,6 +275,8 @@ def run(ck: Check):
     finally:
         shutil.rmtree(work, ignore_errors=True)
     model = run_model(cases)
+    from coqlit import xcheck
+    xcheck(ck, cases, model)
     for c, m, i in zip(cases, model, impl):
         if m != i:
             ck.mismatch(c.split()[0], c, m, i)
@@ -286,20 +288,40 @@ def run(ck: Check):
 CHILD = r"""
 import os, sys, json
 sys.path.insert(0, %(src)r)
+import logging
+logging.disable(logging.CRITICAL)
 from lithium.reducer import Lithium
+from lithium.strategies import CheckOnly
+from lithium.testcases import TestcaseLine
 os.chdir(sys.argv[1])
 mode = sys.argv[2]
+tfile = os.path.join(sys.argv[1], "..", "t-%%d.txt" %% os.getpid())
+with open(tfile, "w") as f:
+    f.write("a\\nb\\n")
+class Script:
+    def interesting(self, args, prefix):
+        return True
+l = Lithium()
+l.strategy = CheckOnly()
+l.testcase = TestcaseLine()
+l.testcase.load(tfile)
+l.condition_script = Script()
+l.condition_args = []
 if mode == "deleted":
     os.rmdir(sys.argv[1])
 elif mode == "barrier":
     while not os.path.exists(sys.argv[3]):
         pass
-l = Lithium()
 try:
-    l.create_temp_dir()
+    l.run()          # the whole start-up path: temp dir creation as a real run does it
     print(json.dumps(["dir", str(l.temp_dir)]))
 except OSError as e:
     print(json.dumps(["err", type(e).__name__]))
+finally:
+    try:
+        os.unlink(tfile)
+    except OSError:
+        pass
 """
 
 
